@@ -342,3 +342,25 @@ def patho_spd(rng):
          'coefficients': [['0.1', '0.5', '0.6'], ['0.2', '0.4', '0.5'], ['0.3', '0.3', '0.7']]})
     b['function_types'] = whole_types(b['elements'])
     return b
+
+
+def patho_spd_free_low(rng):
+    """an spd shell whose s column is a free primitive (remove_free_primitives leaves a fused pd shell)"""
+    b = gen_basis(rng, nel=1, allow_fused=False, lmax=0)
+    el = next(iter(b['elements'].values()))
+    el.setdefault('electron_shells', []).append(
+        {'function_type': 'gto_spherical', 'region': '', 'angular_momentum': [0, 1, 2], 'exponents': ['10.0', '2.0', '0.5'],
+         'coefficients': [['1.0', '0.0', '0.0'], ['0.3', '0.5', '0.2'], ['0.1', '0.2', '0.7']]})
+    b['function_types'] = whole_types(b['elements'])
+    return b
+
+
+def patho_pd_fused(rng):
+    """a fused shell that does not start at s (what remove_free_primitives leaves of an spd shell with a free s column)"""
+    b = gen_basis(rng, nel=1, allow_fused=False, lmax=0)
+    el = next(iter(b['elements'].values()))
+    el.setdefault('electron_shells', []).append(
+        {'function_type': 'gto_spherical', 'region': '', 'angular_momentum': [1, 2], 'exponents': ['10.0', '2.0', '0.5'],
+         'coefficients': [['0.3', '0.5', '0.2'], ['0.1', '0.2', '0.7']]})
+    b['function_types'] = whole_types(b['elements'])
+    return b
